@@ -213,7 +213,32 @@ def r10_5_frame_locals(ctx):
                 ok = isinstance(val, Rec) and val.is_call("ScratchVar") and len(locals_) == n_before
                 why = f"gives {val.text if isinstance(val, Rec) else val}; expected a ScratchVar of its own (frame index {n_before} does not exist / does not fit)"
             ctx.check(ok, "R10.5", construct, why, f.where, fact={"result": val.text if isinstance(val, Rec) else repr(val)})
-    ctx.require_min("R10.5", 12)
+    # every index the allocator can hand out is one FrameDig / FrameBury accept, and nothing outside the immediate's range is
+    fr_mod = "pyteal.ast.frame"
+    for cname in ("FrameDig", "FrameBury"):
+        c = ctx.model.find_class(cname, fr_mod)
+        init = c.methods["__init__"]
+        for idx in (-129, -128, -1, 0, 126, 127, 128, 255):
+            selfs = Sym(f"self:{cname}")
+            args = {"self": selfs, "frame_index": idx}
+            if cname == "FrameBury":
+                args["value"] = Sym("value", attrs={"$isa": {"Expr"}}, methods={"type_of": lambda: "TealType.uint64"})
+
+            def orc(e, me):
+                if isinstance(e, ast.Call) and u(e) == "super()":
+                    return Sym("super", methods={"__init__": lambda: None})
+                if isinstance(e, ast.Call) and u(e.func) == "require_type":
+                    return None
+                raise Unknown()
+
+            try:
+                run_function(init.node, args, orc, init.fq, permissive=True)
+                acc = True
+            except Raised:
+                acc = False
+            want = avm.I8[1] <= idx <= avm.I8[2]
+            ctx.check(acc == want, "R10.5", f"{cname}[index {idx}]", f"{cname} with frame index {idx} is {'accepted' if acc else 'refused'}; the immediate holds {avm.I8[1]}..{avm.I8[2]}, and the allocator hands out cells up to {maxl - 1}", init.where, fact={"accepted": acc})
+    ctx.require_min("R10.5", 28)
 
 
 def r10_6_counter_rewind(ctx):
@@ -269,6 +294,7 @@ def run(ctx):
     r10_7_ops_carry_slots(ctx)
     from rules import c04 as _c04, c03 as _c03, c02 as _c02
 
+    _c02.r02_2_convention(ctx)  # a by-reference parameter is bound to the frame cell of its own position (shared with C02)
     _c02.r02_1_call_site(ctx)  # a by-reference argument hands over the index of the caller's variable, whatever kind of variable it is (shared with C02)
 
     _c04.r04_6_placeholders(ctx)  # every placeholder is rewritten / refused (shared with C04)
@@ -277,6 +303,10 @@ def run(ctx):
     _c03.r03_2_dependency_scan(ctx)  # a variable that is still loaded somewhere keeps its stores (shared with C03)
     from rules import c11 as _c11
 
+    _c11.r11_8_object_state_inventory(ctx)  # two uses of a value get two storage cells: nothing hands out a remembered instance (shared with C11)
+    from rules import c09 as _c09
+
+    _c09.r09_1_decode(ctx)  # the router's argument cells under frame pointers are pairwise different (shared with C09)
     _c11.r11_3_exception_safe_restore(ctx)  # the marker that decides frame cell vs scratch slot for ABI values is restored on every path (shared with C11)
     return (
         "Abstract evaluation of the slot allocator on programs mixing requested and automatic slots (injectivity, requested ids honoured, total rewrite, limits), of the "
